@@ -47,16 +47,21 @@ def lean_sources():
     return sorted(out)
 
 
+EXTRA_PROPS = {"C04": ["C04Par"]}
+
+
 def audit(pid):
-    """Build the Lean project, list the property theorems of Props/<pid>.lean, print their axioms
-    and grep all sources for forbidden constructs.  Returns a dict for the evidence file."""
+    """Build the Lean project, list the property theorems of Props/<pid>.lean (and of its companion
+    files), print their axioms and grep all sources for forbidden constructs."""
     t0 = time.time()
     ensure_built()
-    props_file = os.path.join(LEAN_DIR, "TrashVerif", "Props", pid + ".lean")
-    if not os.path.exists(props_file):
-        raise MachineryError("no Props file for " + pid)
-    src = strip_comments(open(props_file).read())
-    names = re.findall(r"^\s*theorem\s+([A-Za-z0-9_'.]+)", src, re.M)
+    names = []          # (module, theorem)
+    for mod in [pid] + EXTRA_PROPS.get(pid, []):
+        props_file = os.path.join(LEAN_DIR, "TrashVerif", "Props", mod + ".lean")
+        if not os.path.exists(props_file):
+            raise MachineryError("no Props file for " + mod)
+        src = strip_comments(open(props_file).read())
+        names += [(mod, n) for n in re.findall(r"^\s*theorem\s+([A-Za-z0-9_'.]+)", src, re.M)]
     if not names:
         raise MachineryError("no theorems in Props/%s.lean" % pid)
     bad_kw = []
@@ -65,9 +70,10 @@ def audit(pid):
         for m in FORBIDDEN.finditer(s):
             bad_kw.append("%s: %s" % (os.path.relpath(f, LEAN_DIR), m.group(0).strip()))
     with tempfile.NamedTemporaryFile("w", suffix=".lean", dir=LEAN_DIR, delete=False) as tf:
-        tf.write("import TrashVerif.Props.%s\n" % pid)
-        for n in names:
-            tf.write("#print axioms TrashVerif.%s.%s\n" % (pid, n))
+        for mod in sorted({m for m, _ in names}):
+            tf.write("import TrashVerif.Props.%s\n" % mod)
+        for mod, n in names:
+            tf.write("#print axioms TrashVerif.%s.%s\n" % (mod, n))
         tmp = tf.name
     try:
         p = subprocess.run(["lake", "env", "lean", tmp], cwd=LEAN_DIR, stdout=subprocess.PIPE,
@@ -78,18 +84,20 @@ def audit(pid):
         raise MachineryError("axiom audit failed:\n" + p.stdout)
     text = p.stdout.replace("\n  ", " ")
     axioms = {}
-    for n in names:
+    for mod, n in names:
         m = re.search(r"'TrashVerif\.%s\.%s' (does not depend on any axioms|depends on axioms: \[([^\]]*)\])"
-                      % (re.escape(pid), re.escape(n)), text)
+                      % (re.escape(mod), re.escape(n)), text)
         if not m:
-            raise MachineryError("no axiom report for %s in:\n%s" % (n, p.stdout))
-        axioms[n] = [] if m.group(2) is None else [a.strip() for a in m.group(2).split(",") if a.strip()]
+            raise MachineryError("no axiom report for %s.%s in:\n%s" % (mod, n, p.stdout))
+        key = n if mod == pid else mod + "." + n
+        axioms[key] = [] if m.group(2) is None else [a.strip() for a in m.group(2).split(",") if a.strip()]
+    names = list(axioms.keys())
     discharged = [n for n in names if set(axioms[n]) <= ALLOWED_AXIOMS]
     if bad_kw:
         discharged = []
     return {"theorems": names, "axioms": axioms, "discharged": len(discharged),
             "obligations": len(names), "forbidden_hits": bad_kw, "audit_s": round(time.time() - t0, 2),
-            "checker_cmd": "cd lean/TrashVerif && lake build TrashVerif && lake env lean <(#print axioms of every theorem in TrashVerif/Props/%s.lean)" % pid}
+            "checker_cmd": "cd lean/TrashVerif && lake build TrashVerif && lake env lean <(#print axioms of every theorem in TrashVerif/Props/%s.lean%s)" % (pid, "".join(" and Props/%s.lean" % e for e in EXTRA_PROPS.get(pid, [])))}
 
 
 def load_findings():
